@@ -49,6 +49,42 @@ class Source:
         self._index_exceptions()
 
     # ---------------------------------------------------------------- lookup
+    def local_names(self, node):
+        """names assigned anywhere in the function (they are locals: reading one before assignment is UnboundLocalError)"""
+        names = set()
+        for n in ast.walk(node):
+            if isinstance(n, ast.Name) and isinstance(n.ctx, (ast.Store, ast.Del)):
+                names.add(n.id)
+            elif isinstance(n, ast.ExceptHandler) and n.name:
+                names.add(n.name)
+            elif isinstance(n, (ast.FunctionDef,)) and n is not node:
+                names.add(n.name)
+            elif isinstance(n, (ast.Import, ast.ImportFrom)):
+                for a in n.names:
+                    names.add((a.asname or a.name).split('.')[0])
+        # names bound inside nested functions / comprehensions are not locals of this function: approximate by removing
+        # comprehension targets
+        for n in ast.walk(node):
+            if isinstance(n, (ast.GeneratorExp, ast.ListComp, ast.DictComp, ast.SetComp)):
+                for g in n.generators:
+                    for x in ast.walk(g.target):
+                        if isinstance(x, ast.Name):
+                            names.discard(x.id) if not self._assigned_outside(node, x.id) else None
+            if isinstance(n, (ast.Lambda,)):
+                pass
+        return names
+
+    def _assigned_outside(self, fn, name):
+        def walk(n, inside):
+            if isinstance(n, (ast.GeneratorExp, ast.ListComp, ast.DictComp, ast.SetComp)):
+                inside = True
+            if isinstance(n, (ast.FunctionDef, ast.Lambda)) and n is not fn:
+                return False
+            if isinstance(n, ast.Name) and isinstance(n.ctx, ast.Store) and n.id == name and not inside:
+                return True
+            return any(walk(c, inside) for c in ast.iter_child_nodes(n))
+        return walk(fn, False)
+
     def find(self, qual):
         """qual = 'construct.core:Padded._parse' -> ast.FunctionDef (or ClassDef)"""
         mod, _, name = qual.partition(':')
@@ -78,6 +114,7 @@ class Source:
 
     def _index_classes(self):
         self.classes = {}      # name -> (module, ClassDef, [base names])
+        self.singletons = {}   # name -> class name (for @singleton class X) or ('factory', FunctionDef) (for @singleton def X)
         for mod, tree in self.modules.items():
             for n in tree.body:
                 if isinstance(n, ast.ClassDef):
@@ -88,6 +125,10 @@ class Source:
                         elif isinstance(b, ast.Attribute):
                             bases.append(ast.unparse(b))
                     self.classes[n.name] = (mod, n, bases)
+                    if any(isinstance(d, ast.Name) and d.id == 'singleton' for d in n.decorator_list):
+                        self.singletons[n.name] = n.name
+                elif isinstance(n, ast.FunctionDef) and any(isinstance(d, ast.Name) and d.id == 'singleton' for d in n.decorator_list):
+                    self.singletons[n.name] = ('factory', n)
 
     def mro(self, cls):
         """linear base chain (single inheritance in this code base)"""
